@@ -86,6 +86,7 @@ K_MSE_MASK = "reward-mse-metric-not-masked-per-sample"
 K_TOTAL = "total!=weighted-sum-of-terms"
 
 LOUD = (AssertionError, ValueError, TypeError)
+MODE_RTOL = 1e-4  # two float32 executions (eager op-by-op vs fused XLA program); LayerNorm over 3 units amplifies rounding
 GAMMAS = [0.0, 0.5, 0.99, 1.0]
 REWARD_VALUES = [-1.0, 0.0, 2.0]
 QUICK_REWARDS = [[-1.0, 2.0, 0.0], [2.0, -1.0, 2.0], [0.0, 0.0, -1.0]]
@@ -360,9 +361,17 @@ class Real:
             m = {k: nnx.merge(self.gdefs[k], states[k]) for k in self.names}
             return forward(fam, m, a, n)
 
-        self.value = jax.jit(pure)
-        self.fwd = jax.jit(fwd)
+        # ONE program returns the loss outputs and the forward passes its reference is computed from, so the
+        # reference consumes the values the loss consumed (identical sub-computations of one XLA program), and
+        # every differential comparison (IEEE ==) is between two runs of this same program
+        self.both = jax.jit(lambda st, a, s, n: (pure(st, a, s, n), fwd(st, a, n)))
         self.grad = jax.jit(jax.grad(lambda st, a, s, n: pure(st, a, s, n)["loss"], argnums=(0, 1, 2)))
+
+    def value(self, states, a, s, n):
+        return self.both(states, a, s, n)[0]
+
+    def fwd(self, states, a, s, n):
+        return self.both(states, a, s, n)[1]
 
     @staticmethod
     def states(mods):
@@ -553,7 +562,7 @@ def run_one_step(item, col):
     wvec = np.asarray([0.5, 2.0, 1.25][:N], np.float32)
     key = jax.random.key(7 + seed)
     perms = list(itertools.permutations(range(N)))
-    col.outcome("shape_signatures:" + fam)
+    col.outcome("work_items:" + fam)
 
     real = None
     eager_left = 3
@@ -596,10 +605,10 @@ def run_one_step(item, col):
                         return tonp(td7_call(upd, a_, n_, gamma, ex))
                     return tonp(real.value(states, a_, scal(gamma), n_))
 
-                def fw_of(a_, n_):
+                def fw_of(a_, n_, gamma_):
                     if fam == "td7":
                         return tonp(fwd_j(mods, a_, n_))
-                    return tonp(real.fwd(states, a_, n_))
+                    return tonp(real.fwd(states, a_, scal(gamma_), n_))
 
                 def refex(act_=act, w_=wvec):
                     r = dict(ex)
@@ -613,7 +622,7 @@ def run_one_step(item, col):
                     a2 = {kk: dup(v) for kk, v in a_.items()}
                     n2 = {kk: (dup(v) if kk in ("act", "term") else v) for kk, v in n_.items()}
                     o2 = evaluate(a2, n2, gamma_)
-                    r2, _ = td_reference(fam, fw_of(a2, n2), dup(rew_), dup(term_), gamma_, refex(dup(act) if disc else act, dup(wvec)))
+                    r2, _ = td_reference(fam, fw_of(a2, n2, gamma_), dup(rew_), dup(term_), gamma_, refex(dup(act) if disc else act, dup(wvec)))
                     return num.close(o2["loss"], r2["loss"])
 
                 fw = None
@@ -634,7 +643,7 @@ def run_one_step(item, col):
                                 col.violation(SIG.format(entry, K_RAISE), dict(detail, error=f"{type(e).__name__}: {str(e)[:300]}"))
                                 return
                             if fw is None:
-                                fw = fw_of(a, n)
+                                fw = fw_of(a, n, gamma)
                             if fam in ("ddqn", "ddqn_per") and near_tie(fw["qo_next"]):
                                 col.outcome("argmax_near_tie_skipped")
                                 continue
@@ -659,7 +668,7 @@ def run_one_step(item, col):
                                 eager_left -= 1
                                 eo = tonp(call(fam, mods, tojax(a), tojax(scal(gamma)), tojax(n)))
                                 col.tick(1)
-                                if not near(eo, out, 1e-5):
+                                if not near(eo, out, MODE_RTOL):
                                     col.violation(SIG.format(entry, K_MODE), dict(detail, eager=eo, jit=out))
 
                             if ri != 0 or ai != 0:
@@ -700,7 +709,7 @@ def run_one_step(item, col):
                                 col.tick(1)
                                 col.outcome(f"{fam}:permutations")
                                 if fam == "sac":
-                                    r2, _ = td_reference(fam, fw_of(a2, n2), rew[p], term[p], gamma, refex())
+                                    r2, _ = td_reference(fam, fw_of(a2, n2, gamma), rew[p], term[p], gamma, refex())
                                     good = all(num.close(o2[kk], r2[kk]) for kk in o2)
                                 else:
                                     good = all(
@@ -745,7 +754,7 @@ def run_sale(item, col):
     nobss = [grid(rng, (N, O)) for _ in range(nv)]
     perms = list(itertools.permutations(range(N)))
     real = None
-    col.outcome("shape_signatures:sale")
+    col.outcome("work_items:sale")
     for pi in range(2 if tier == "quick" else 3):
         mods = build(fam, O, A, seed, pi, 0)
         real = real or Real(fam, mods)
@@ -763,12 +772,12 @@ def run_sale(item, col):
                     return
                 col.violation(SIG.format(entry, K_RAISE), dict(detail, error=f"{type(e).__name__}: {str(e)[:300]}"))
                 return
-            fw = tonp(real.fwd(states, a, {}))
+            fw = tonp(real.fwd(states, a, {}, {}))
             # documented: L = mean over samples and features of (z^{sa} - sg(z^{s'}))^2
             ref = dict(loss=float(np.mean((f64(fw["zsa"]) - f64(fw["zs_next"])) ** 2)))
             def dup_ok():
                 a2 = {kk: dup(v) for kk, v in a.items()}
-                f2 = tonp(real.fwd(states, a2, {}))
+                f2 = tonp(real.fwd(states, a2, {}, {}))
                 return num.close(real.value(states, a2, {}, {})["loss"], float(np.mean((f64(f2["zsa"]) - f64(f2["zs_next"])) ** 2)))
 
             ok = compare_value(col, fam, out, ref, N, detail, (fam, N, O, A, pi, oi, ai, ni), dup_ok)
@@ -783,7 +792,7 @@ def run_sale(item, col):
                 col.sample(dict(detail, loss=float(out["loss"]), reference=ref["loss"]))
                 eo = tonp(call(fam, mods, tojax(a), {}, {}))
                 col.tick(1)
-                if not near(eo, out, 1e-5):
+                if not near(eo, out, MODE_RTOL):
                     col.violation(SIG.format(entry, K_MODE), dict(detail, eager=eo, jit=out))
             if oi == 0:
                 for p in perms[1:]:
@@ -837,7 +846,7 @@ def run_mrq(item, col):
     groups = patterns(N, H, item["part"])
     perms = list(itertools.permutations(range(N)))
     pairs = param_pairs(tier) if tier == "thorough" else [[0, 0], [1, 1]]
-    col.outcome("shape_signatures:mrq")
+    col.outcome("work_items:mrq")
     real = None
     eager_left = 2
     for pi, pj in pairs:
@@ -865,7 +874,7 @@ def run_mrq(item, col):
                             col.violation(SIG.format(entry, K_RAISE), dict(detail, error=f"{type(e).__name__}: {str(e)[:300]}"))
                             return
                         if fw is None:
-                            fw = tonp(real.fwd(states, a, n))
+                            fw = tonp(real.fwd(states, a, s, n))
                         # documented: n-step return truncated at the first termination flag, bootstrap
                         # min(Q1',Q2') scaled by target_reward_scale, all divided by reward_scale; Huber(1)
                         ret, disc = np.zeros(N), np.ones(N)
@@ -909,7 +918,7 @@ def run_mrq(item, col):
                             eager_left -= 1
                             eo = tonp(call(fam, mods, tojax(a), tojax(s), tojax(n)))
                             col.tick(1)
-                            if not near(eo, out, 1e-5):
+                            if not near(eo, out, MODE_RTOL):
                                 col.violation(SIG.format(entry, K_MODE), dict(detail, eager=eo, jit=out))
                         # flags after the first termination of a row are irrelevant: same output as the canonical member
                         if canon_out is None:
@@ -1001,7 +1010,7 @@ def run_encoder(item, col):
     groups = patterns(N, H, item["part"])
     perms = list(itertools.permutations(range(N)))
     pairs = [[0, 0], [1, 1]] if tier == "quick" else [[0, 0], [1, 1], [2, 0]]
-    col.outcome("shape_signatures:encoder")
+    col.outcome("work_items:encoder")
 
     def fn(enc, enct, a, w, envterm, term):
         b = SubBatch(a["obs"], a["act"], a["rew"], a["nobs"], term, jnp.zeros_like(term))
@@ -1014,9 +1023,6 @@ def run_encoder(item, col):
     def pure(states, a, w, envterm, term):
         return fn(nnx.merge(gd["enc"], states["enc"]), nnx.merge(gd["enct"], states["enct"]), a, w, envterm, term)
 
-    value = jax.jit(pure)
-    grad = nnx.jit(nnx.grad(lambda enct, a, enc, w, envterm, term: fn(enc, enct, a, w, envterm, term)["total"], argnums=(0, 1, 2)))
-
     def rollout(enc, enct, a):
         zs = enc.encode_zs(a["obs"][:, 0])
         ds, zss, lgs, tg = [], [], [], []
@@ -1026,13 +1032,28 @@ def run_encoder(item, col):
             tg.append(enct.encode_zs(a["nobs"][:, t]) if norm else enct.zs(a["nobs"][:, t]))
         return dict(d=jnp.stack(ds), zs=jnp.stack(zss), logits=jnp.stack(lgs), tgt=jnp.stack(tg))
 
-    fwd = jax.jit(lambda states, a: rollout(nnx.merge(gd["enc"], states["enc"]), nnx.merge(gd["enct"], states["enct"]), a))
+    both = jax.jit(lambda states, a, w, envterm, term: (pure(states, a, w, envterm, term), rollout(nnx.merge(gd["enc"], states["enc"]), nnx.merge(gd["enct"], states["enct"]), a)))
+
+    def value(*args):
+        return both(*args)[0]
+
+    grad = nnx.jit(nnx.grad(lambda enct, a, enc, w, envterm, term: fn(enc, enct, a, w, envterm, term)["total"], argnums=(0, 1, 2)))
+
     eager_left = 2
     for pi, pj in pairs:
         mods = build(fam, O, A, seed, pi, pj)
         states = Real.states(mods)
-        a = dict(obs=f32(obs), act=f32(act), nobs=f32(nobs))
-        fw = {k: f64(v) for k, v in fwd(states, a).items()}
+        a = dict(obs=f32(obs), act=f32(act), nobs=f32(nobs), rew=f32(rewards[0]))
+        try:
+            fw = {k: f64(v) for k, v in both(states, a, np.asarray(weights[0], np.float32), True, groups[0][0])[1].items()}
+        except LOUD as e:
+            col.tick(1)
+            if N == 1:
+                col.outcome(f"n1_rejected_loudly:encoder:{type(e).__name__}")
+                col.sample(dict(entry=entry, N=N, H=H, rejected=f"{type(e).__name__}: {str(e)[:200]}"))
+                return
+            col.violation(SIG.format(entry, K_RAISE), dict(entry=entry, N=N, H=H, obs_dim=O, act_dim=A, error=f"{type(e).__name__}: {str(e)[:300]}"))
+            return
         sqd = ((fw["zs"] - fw["tgt"]) ** 2).mean(-1)  # (H, N) per-sample latent-dynamics error
         lsm = log_softmax(fw["logits"])
         p = np.exp(lsm)
@@ -1074,21 +1095,24 @@ def run_encoder(item, col):
                             unm = float(sqd.mean(1).sum())
                             if abs(unm - ref["dyn"]) > 1e-3:
                                 col.outcome("encoder:value_would_change_if:no_termination_mask")
-                        if N == 1:
-                            col.outcome("n1_same_per_sample_value:encoder")
+                        ok = True
                         for kk, kind in (("dyn", K_DYN), ("rew", K_REW), ("done", K_DONE_MASK if masked else K_DONE), ("mse", K_MSE_MASK if masked else K_MSE)):
                             if not num.close(out[kk], ref[kk]):
                                 col.violation(SIG.format(entry, kind), dict(detail, term=kk, got=float(out[kk]), expected=ref[kk]))
+                                ok = False
                         tot = w[0] * float(out["dyn"]) + w[1] * float(out["rew"]) + w[2] * float(out["done"])
                         if not num.close(out["total"], tot):
                             col.violation(SIG.format(entry, K_TOTAL), dict(detail, got=float(out["total"]), expected=tot))
+                            ok = False
+                        if N == 1 and ok:
+                            col.outcome("n1_same_per_sample_value:encoder")
                         if col.evaluations % 1999 == 0 or not col.samples:
                             col.sample(dict(detail, out={k: float(v) for k, v in out.items()}, reference=ref))
                         if eager_left > 0 and masked and envterm:
                             eager_left -= 1
                             eo = tonp(fn(mods["enc"], mods["enct"], tojax(a), jnp.asarray(wj), envterm, jnp.asarray(jt)))
                             col.tick(1)
-                            if not near(eo, out, 1e-5):
+                            if not near(eo, out, MODE_RTOL):
                                 col.violation(SIG.format(entry, K_MODE), dict(detail, eager=eo, jit=out))
 
                         def attribute(o2, what, extra):
@@ -1113,11 +1137,11 @@ def run_encoder(item, col):
                             if ft[i] >= H - 1:
                                 continue
                             sl = slice(ft[i] + 1, H)
-                            a2 = dict(a)
-                            x = act.copy(); x[i, sl] = alt_act[i, sl]; a2["act"] = f32(x)
-                            x = nobs.copy(); x[i, sl] = alt_nobs[i, sl]; a2["nobs"] = f32(x)
-                            x = rew.copy(); x[i, sl] = alt_rew[i, sl]; a2["rew"] = f32(x)
-                            x = obs.copy(); x[i, sl] = alt_obs[i, sl]; a2["obs"] = f32(x)
+                            a2 = {}
+                            for kk, base, alt in (("act", act, alt_act), ("nobs", nobs, alt_nobs), ("rew", rew, alt_rew), ("obs", obs, alt_obs)):
+                                x = base.copy()
+                                x[i, sl] = alt[i, sl]
+                                a2[kk] = f32(x)
                             o2 = tonp(value(states, a2, wj, envterm, jt))
                             col.tick(1)
                             col.outcome("encoder:post_terminal_data_replacements")
